@@ -47,7 +47,17 @@ func runC39(r *Report) {
 			from, to *ssa.BasicBlock
 		}
 		var ls []leaf
-		if ph, isphi := rv[0].(*ssa.Phi); isphi {
+		wholeTested := false
+		for _, g := range DomGuards(b) {
+			if c, isc := g.Cond.(*ssa.Call); isc && !g.Pol && CalleeName(c) == "strings.HasPrefix" && c.Call.Args[0] == rv[0] {
+				if sv, iss := ConstString(c.Call.Args[1]); iss && strings.HasPrefix(sv, "rueidisid") {
+					wholeTested = true
+				}
+			}
+		}
+		if wholeTested {
+			ls = nil
+		} else if ph, isphi := rv[0].(*ssa.Phi); isphi {
 			for i, e := range ph.Edges {
 				ls = append(ls, leaf{e, ph.Block().Preds[i], ph.Block()})
 			}
